@@ -206,6 +206,9 @@ def callSt (cy : Bool) (s : St) (name : String) (x : Args) : St × Ref :=
     s.emit (.derive { srcs := [a], legs := .newList (layout h [a] ls (x.L 0)),
                       qtotal := if name == "drop_charge_one" then .fresh [tok + 100] else .copy 0,
                       data := .newList (copies 0 n) })
+  | "deep_fresh" =>   -- a + b, a - b, a * s: deep copy of operand 0, then every block and `_qdata` replaced
+    s.emit (.derive { srcs := [a], qdata := .fresh (x.L 0), data := .newList (freshBlks tok (x.L 0).length),
+                      dtype := some (x.N 0), qsorted := some (x.B 0) })
   | "fresh" =>
     -- everything new except the leg *objects* taken from the operands (tensordot, outer, trace, squeeze, __getitem__,
     -- add_charge, drop_charge(None), permute, combine_legs after a transposition, …): l0 = layout, l1 = keys,
@@ -231,9 +234,12 @@ def callSt (cy : Bool) (s : St) (name : String) (x : Args) : St × Ref :=
       { src := p, shSlices := true, shCharges := true, qconj := P.qconj, sorted := P.sorted, bunched := P.bunched })
     let ls' := ((x.L 0).zip news).foldl (fun acc (ax, r) => acc.set ax r) ls
     s.emit (.inplace a { legs := .mutate (ls'.map LegSrc.ref), labels := .rebind (.fresh [tok]) })
-  | "concat_views" =>  -- concatenate(copy=False) with equal dtypes: `np.asarray(t, dtype)` is `t`
+  | "concat_views" =>
+    -- concatenate(copy=False): `np.asarray(t, dtype)` is `t` for the operands that already have the result dtype
+    -- (flags l2), a converted copy for the others; qtotal comes from `arrays[0].zeros_like()` (shallow copy)
     let (s, l) := s.emit (.leg (freshLeg tok (if x.B 2 then 1 else -1) (x.B 3) (x.B 4)))
-    let blks := (x.a.zipIdx.map fun (r, k) => views k (nblk h r)).flatten
+    let blks := (x.a.zipIdx.map fun (r, k) =>
+      if (x.L 2).getD k 0 != 0 then views k (nblk h r) else freshBlks (tok + 10 + 100 * k) (nblk h r)).flatten
     s.emit (.derive { srcs := x.a, legs := .newList ((srcLegs 0 (rank h a)).set (x.N 1) (LegSrc.ref l)), qtotal := .shared 0,
                       qdata := .fresh (x.L 1), data := .newList blks, dtype := some (x.N 0), qsorted := some false })
   -- ------------------------------------------------------------------ re-sorting of operands
